@@ -390,6 +390,47 @@ def replay_errpath(a):
     return None
 
 
+def sweep_case(cfg, which, n):
+    from .. import lib as _lib
+    S, m = L.get(cfg)
+    G = m.G
+    if which == "multiply":
+        call = lambda x: (lambda o: L.to_model(o[1]) if o[0] == "ok" else o)(L.call(S.multiply, L.to_lib(x[0]), x[1]))  # noqa: E731
+        expect = lambda x: m.mul(x[0], x[1] % m.n)  # noqa: E731
+        anchors = [(G, 5), (G, m.n - 1), (m.mul(G, 3), 7), (m.mul(G, 2), 2)]
+        Q, pts = G, []
+        for _ in range(n):
+            Q = m.add(Q, m.mul(G, 2))
+            pts.append(Q)
+        distinct = ((pts[j], 3 + j) for j in range(n))
+    else:
+        call = lambda x: (lambda o: L.to_model(o[1]) if o[0] == "ok" else o)(L.call(S.privtopub, x))  # noqa: E731
+        expect = lambda x: m.mul(G, int.from_bytes(x, "big") % m.n)  # noqa: E731
+        anchors = [(i + 1).to_bytes(32, "big") for i in range(4)]
+        distinct = ((7 + j).to_bytes(32, "big") for j in range(n))
+    return _lib.sweep(call, anchors, distinct, n, expect)
+
+
+def task_sweep(a, env):
+    r = R("anchors-again-after-n-distinct-calls")
+    for cfg, n in a["cases"]:
+        for which in ("multiply", "privtopub"):
+            bad = sweep_case(cfg, which, n)
+            r.ev += n + 4 * 20
+            r.dk.add((str(cfg), which))
+            if bad:
+                r.viol("C18:%s:%s:stale-after-many-distinct" % ("full" if cfg == "full" else "tiny", which), ME + ":replay_sweep",
+                       {"cfg": cfg, "which": which, "n": bad[0]}, bad[2], bad[3], note="anchor %d after %d distinct calls" % (bad[1], bad[0]))
+    r.transitions = r.ev
+    r.sample({"history": "multiply(a0..a3); multiply(d1); multiply(a0..a3); multiply(d2); ..."})
+    return r
+
+
+def replay_sweep(a):
+    bad = sweep_case(a["cfg"], a["which"], a["n"])
+    return None if not bad else {"after": bad[0], "anchor": bad[1], "expected": bad[2], "observed": bad[3]}
+
+
 def replay(a):
     S, m = L.get(a["cfg"])
     op = a["op"]
@@ -439,4 +480,6 @@ def run(ctx):
     tasks.append(("full_unreduced", {}))
     tasks.append(("inv", {"hi": 500 if ctx.quick else 2000, "w": 1500 if ctx.quick else 20000}))
     tasks.append(("errpath", {"cfgs": ["full", list(curves[0]), list(curves[3])]}))
+    tasks.append(("sweep", {"cases": [["full", 150 if ctx.quick else 1100]]}))
+    tasks.append(("sweep", {"cases": [[list(curves[0]), 600 if ctx.quick else 5000]]}))
     ctx.pmap(ME, tasks)
